@@ -19,6 +19,8 @@ SCHED = [None]  # optional scheduler: object with .yield_point(kind, info)
 SHARED = set()  # product roots whose files are ONE file object per path, handed out (rewound) by every open and never really closed:
 #                 the semantics of fsspec's own memory:// filesystem, on which only the caller's locking keeps two readers apart
 _shared = {}
+BUFFERED = set()  # product roots whose files are AbstractBufferedFile objects (object-store style: one range request per read)
+STREAMING = set()  # product roots whose files are streams with short reads whatever block size was asked for
 STALL = {}  # path -> [seconds, how many reads still stall]: a request that hangs for a long while (a stalled connection), after the seek
 JITTER = [0.0]  # seconds slept at the start of every read (after the seek that positioned it): lets the threads an implementation may
 #                 use internally interleave on a handle they share; harmless for a single reader
@@ -126,9 +128,10 @@ def base(path):
 
 
 class TracedFile(io.BytesIO):
-    def __init__(self, path, data):
+    def __init__(self, path, data, dribble=0):
         super().__init__(data)
         self._path = path
+        self._dribble = dribble   # > 0: a stream that hands out at most that many bytes per read
         with _lock:
             _handle[0] += 1
             self._h = _handle[0]
@@ -172,6 +175,8 @@ class TracedFile(io.BytesIO):
             s.yield_point(ev)
             pos = self.tell()
             ev["pos"] = pos
+        if self._dribble and (size is None or size < 0 or size > self._dribble):
+            size = self._dribble
         data = super().read(size)
         ev["got"] = len(data)
         if s is None:
@@ -204,6 +209,28 @@ class TracedFile(io.BytesIO):
     def __del__(self):
         # a handle that is garbage collected without close() is NOT logged as closed (handle-leak detection)
         pass
+
+
+class TracedBuffered(fsspec.spec.AbstractBufferedFile):
+    """the file object of object stores (s3 / gcs / http style): every read is a range request of its own"""
+
+    def __init__(self, fs, path, data):
+        self._data = data
+        with _lock:
+            _handle[0] += 1
+            self._h = _handle[0]
+        super().__init__(fs, path, mode="rb", block_size=0, cache_type="none", size=len(data))
+        _emit({"e": "fopen", "h": self._h, "f": base(path), "path": path})
+
+    def _fetch_range(self, start, end):
+        out = self._data[start:end]
+        _emit({"e": "read", "h": self._h, "f": base(self.path), "pos": start, "req": end - start, "got": len(out)})
+        return out
+
+    def close(self):
+        if not self.closed:
+            _emit({"e": "fclose", "h": self._h, "f": base(self.path)})
+        super().close()
 
 
 class SharedTracedFile(TracedFile):
@@ -290,6 +317,11 @@ class TraceFS(AbstractFileSystem):
                 f = _shared[path] = SharedTracedFile(path, data)
                 return f
             return f.reopen()
+        if any(path.startswith(r + "/") for r in BUFFERED):
+            return TracedBuffered(self, path, data)
+        if block_size == 0 or any(path.startswith(r + "/") for r in STREAMING):
+            # a caller that asks for an unbuffered stream gets one (as the http file system does): reads may come up short
+            return TracedFile(path, data, dribble=200)
         return TracedFile(path, data)
 
     def pipe_file(self, path, value, **kwargs):
